@@ -21,6 +21,7 @@ fn main() {
     let mut seed = 0u64;
     let mut budget = 1000usize;
     let mut out_path: Option<String> = None;
+    let mut corpus = String::from("/verif/corpus");
     let mut i = 2;
     while i < args.len() {
         match args[i].as_str() {
@@ -30,6 +31,10 @@ fn main() {
             }
             "--budget" => {
                 budget = args[i + 1].parse().unwrap();
+                i += 2;
+            }
+            "--corpus" => {
+                corpus = args[i + 1].clone();
                 i += 2;
             }
             "--out" => {
@@ -61,6 +66,7 @@ fn main() {
         "state" => genstream::stream_state(&mut out, seed, budget),
         "hist" => genstream::stream_hist(&mut out, seed, budget),
         "core" => genstream::stream_core(&mut out, seed, budget),
+        "kat" => genstream::stream_kat(&mut out, &format!("{}/kat.txt", corpus)),
         x => {
             eprintln!("unknown stream {}", x);
             std::process::exit(2);
